@@ -9,6 +9,8 @@
 (*   uuid                            value opaque: 16 bytes                *)
 (*   coord      n, w                 n floats (Vector3, Vector4, ...)      *)
 (*   null                                                                  *)
+(*   llsd                            one binary-LLSD document; the value   *)
+(*                                   is opaque: [x |-> its bytes]          *)
 (*   bytearray  p (int tree)         length-prefixed bytes                 *)
 (*   bytesfixed n                                                          *)
 (*   bytesgreedy                                                           *)
@@ -172,7 +174,7 @@ FrameIdx(t, ctx) == IF t.up < 0 THEN (IF Len(ctx) >= 2 THEN Len(ctx) ELSE 0)
 \* TRUE only where the encoding of every domain value can be followed by arbitrary bytes.
 RECURSIVE SD(_)
 SD(t) ==
-  CASE t.k \in {"int", "float", "uuid", "coord", "null", "bytearray", "bytesfixed", "str", "strfixed"} -> TRUE
+  CASE t.k \in {"int", "float", "uuid", "coord", "null", "llsd", "bytearray", "bytesfixed", "str", "strfixed"} -> TRUE
     [] t.k \in {"bytesgreedy", "ifpresent", "lenswitch"} -> FALSE
     [] t.k \in {"bytesterm", "cstr"} -> t.wt
     [] t.k = "tuple" -> \A j \in 1..Len(t.cs) : SD(t.cs[j])
@@ -200,6 +202,62 @@ Size(t) ==
     [] t.k = "bitfield" -> Size(t.p)
     [] t.k = "adapter" -> Size(t.c)
     [] OTHER -> -1
+
+\* Model bound: a length-prefixed collection announcing more entries than this is not decoded (the
+\* implementation would loop that many times; no encoding explored by the model is that long).
+CountCap == 300
+
+\* ---------------------------------------------------- binary LLSD documents (framing only)
+\* Length of the binary-LLSD document at the head of bs, -1 if there is none.  Only the framing is modelled:
+\* the document is an opaque leaf value, but a reader must consume exactly its bytes wherever it stands.
+BE32(bs, j) == IF bs[j] >= 128 THEN -1 ELSE Val4(SubSeq(bs, j, j + 3))
+RECURSIVE LLSDLen(_)
+RECURSIVE LLSDItems(_, _, _)
+\* total length of n items (each preceded by a 'k' len key when keyed), -1 if malformed
+LLSDItems(bs, n, keyed) ==
+  IF n = 0 THEN 0
+  ELSE LET klen == IF ~keyed THEN 0
+                   ELSE IF Len(bs) < 5 THEN -1 ELSE IF bs[1] # 107 THEN -1
+                   ELSE IF BE32(bs, 2) < 0 THEN -1 ELSE 5 + BE32(bs, 2)
+       IN IF klen < 0 \/ klen > Len(bs) THEN -1
+          ELSE LET one == LLSDLen(Drop(bs, klen)) IN
+               IF one < 0 THEN -1
+               ELSE LET more == LLSDItems(Drop(bs, klen + one), n - 1, keyed) IN IF more < 0 THEN -1 ELSE klen + one + more
+LLSDLen(bs) ==
+  IF bs = <<>> THEN -1
+  ELSE LET tag == bs[1]
+           fits(n) == IF n <= Len(bs) THEN n ELSE -1
+       IN CASE tag \in {33, 48, 49} -> 1                                   \* ! 0 1
+            [] tag = 105 -> fits(5)                                        \* i
+            [] tag \in {114, 100} -> fits(9)                               \* r d
+            [] tag = 117 -> fits(17)                                       \* u
+            [] tag \in {115, 108, 98} ->                                   \* s l b
+                 IF Len(bs) < 5 THEN -1 ELSE IF BE32(bs, 2) < 0 THEN -1 ELSE fits(5 + BE32(bs, 2))
+            [] tag \in {91, 123} ->                                        \* [ {
+                 IF Len(bs) < 5 THEN -1 ELSE IF BE32(bs, 2) < 0 \/ BE32(bs, 2) > CountCap THEN -1
+                 ELSE LET body == LLSDItems(Drop(bs, 5), BE32(bs, 2), tag = 123) IN
+                      IF body < 0 THEN -1
+                      ELSE IF 5 + body + 1 > Len(bs) THEN -1
+                      ELSE IF bs[5 + body + 1] # (IF tag = 91 THEN 93 ELSE 125) THEN -1 ELSE 5 + body + 1
+            [] OTHER -> -1
+
+\* ------------------------------------------------ the same spec with its terminator lists rotated
+\* A terminated kind accepts ANY of its terminators on the wire and its reader stops at the EARLIEST position where
+\* any of them stands, whatever their order in the list.  Rot(t, j) is t with every terminator list rotated by j, i.e.
+\* a writer of the same format that ends its values with another legal terminator.
+RotSeq(q, j) == IF q = <<>> THEN q ELSE [x \in 1..Len(q) |-> q[((x - 1 + j) % Len(q)) + 1]]
+RECURSIVE Rot(_, _)
+Rot(t, j) ==
+  CASE t.k \in {"bytesterm", "cstr"} -> [t EXCEPT !.terms = RotSeq(t.terms, j)]
+    [] t.k = "tuple" -> [t EXCEPT !.cs = [x \in 1..Len(t.cs) |-> Rot(t.cs[x], j)]]
+    [] t.k = "template" -> [t EXCEPT !.fs = [x \in 1..Len(t.fs) |-> [n |-> t.fs[x].n, t |-> Rot(t.fs[x].t, j)]]]
+    [] t.k \in {"coll", "optprefix", "optflag", "ifpresent", "adapter"} -> [t EXCEPT !.c = Rot(t.c, j)]
+    [] t.k = "typedbytes" -> [t EXCEPT !.c = Rot(t.c, j), !.terms = RotSeq(t.terms, j)]
+    [] t.k \in {"lenswitch", "enumswitch", "flagswitch"} ->
+         [t EXCEPT !.ch = [x \in 1..Len(t.ch) |-> [t.ch[x] EXCEPT !.t = Rot(t.ch[x].t, j)]]]
+    [] t.k = "ctxswitch" -> [t EXCEPT !.ch = [x \in 1..Len(t.ch) |-> [t.ch[x] EXCEPT !.t = Rot(t.ch[x].t, j)]],
+                                      !.dflt = [x \in 1..Len(t.dflt) |-> Rot(t.dflt[x], j)]]
+    [] OTHER -> t
 
 \* ------------------------------------------------------------------ encoder
 RECURSIVE E(_, _, _, _)
@@ -243,6 +301,7 @@ E(t, v, e, ctx) ==
          IF Is(v, "l") /\ Len(v.l) = t.n /\ \A j \in 1..Len(v.l) : IsBytes(v.l[j], "f") /\ Len(v.l[j].f) = t.w
          THEN Ok(Flat([j \in 1..t.n |-> Endian(v.l[j].f, e)])) ELSE Bad
     [] t.k = "null" -> IF IsNone(v) THEN Ok(<<>>) ELSE Bad
+    [] t.k = "llsd" -> IF IsBytes(v, "x") THEN (IF LLSDLen(v.x) = Len(v.x) THEN Ok(v.x) ELSE Bad) ELSE Bad
     [] t.k = "bytearray" ->
          IF ~IsBytes(v, "b") THEN Bad
          ELSE LET p == EncInt(t.p, [i |-> Len(v.b)], e) IN IF p.st = "ok" THEN Ok(p.b \o v.b) ELSE p
@@ -362,9 +421,6 @@ E(t, v, e, ctx) ==
     [] t.k = "adapter" -> E(t.c, v, e, ctx)
 
 \* ------------------------------------------------------------------ decoder
-\* Model bound: a length-prefixed collection announcing more entries than this is not decoded (the
-\* implementation would loop that many times; no encoding explored by the model is that long).
-CountCap == 300
 RECURSIVE D(_, _, _, _)
 RECURSIVE DTuple(_, _, _, _, _)
 DTuple(ts, bs, e, ctx, acc) ==
@@ -429,6 +485,7 @@ D(t, bs, e, ctx) ==
          IF Len(bs) < t.n * t.w THEN Fail
          ELSE Got([l |-> [j \in 1..t.n |-> [f |-> Endian(SubSeq(bs, (j - 1) * t.w + 1, j * t.w), e)]]], Drop(bs, t.n * t.w))
     [] t.k = "null" -> Got(None, bs)
+    [] t.k = "llsd" -> LET n == LLSDLen(bs) IN IF n < 0 THEN Fail ELSE Got([x |-> Take(bs, n)], Drop(bs, n))
     [] t.k \in {"bytearray", "bytesfixed", "bytesgreedy", "bytesterm"} ->
          LET w == Window(BytesMode(t), bs, e) IN IF ~w.ok THEN Fail ELSE Got([b |-> w.v], w.r)
     [] t.k \in {"str", "strfixed"} ->
